@@ -268,7 +268,7 @@ def addToSetValue (cur : Val) (value : Val) : R Val :=
 /-- every existing intermediate container along the path is a sub-document -/
 def docsAlong : List String → Val → Bool
   | [], _ => true
-  | [_], d => d.isDoc
+  | [_], _ => true            -- the container of the LAST part is not looked at by that loop
   | part :: rest, .doc fs =>
     (match dget part fs with
      | some sub => docsAlong rest sub
